@@ -240,6 +240,27 @@ def udp_isolation_one(fe, cut, tid_a, tid_b):
     return ok, rec
 
 
+def udp_burst(tier, r=None):
+    """two peers' datagrams delivered back to back to the asyncio datagram server (both queued before the serving
+    coroutine runs, as a busy loop or uvloop does): each peer gets the answer to its OWN request"""
+    r = r or common.rng("C09.udp.burst")
+    fails, keys = [], []
+    for n in range(4 if tier == "quick" else 40):
+        ta, tb = r.randrange(1, 65536), r.randrange(1, 65536)
+        if ta == tb:
+            tb ^= 1
+        a = L.adu("socket", ta, 1, bytes([3]) + struct.pack(">HH", 1, 1))
+        b = L.adu("socket", tb, 1, bytes([3]) + struct.pack(">HH", 5, 2))
+        rec = L.run("aio_udp", "socket", {"single": True, "bcast": False, "ignore": False}, [(0, "ok")],
+                    [(a, 1, "burst"), (b, 2)])
+        got = sorted((dest, [x[0] for x in (L.split_adus("socket", data) or [])]) for data, dest in rec.raw)
+        keys.append(("aio_udp", "burst", ta, tb))
+        if got != [(1, [ta]), (2, [tb])]:
+            fails.append({"scenario": {"fe": "aio_udp", "framer": "socket", "burst": True, "tid_a": ta, "tid_b": tb},
+                          "observed": L.observation(rec), "answers_by_peer": got})
+    return {"evaluations": len(keys), "failures": fails, "broken": [], "samples": fails[:1], "keys": keys}
+
+
 def udp_sender_isolation(tier):
     r = common.rng("C09.udp")
     fails, keys = [], []
@@ -255,6 +276,9 @@ def udp_sender_isolation(tier):
                 if not ok:
                     fails.append({"scenario": {"fe": fe, "framer": "socket", "cut": cut, "tid_a": ta, "tid_b": tb},
                                   "observed": L.observation(rec)})
+    bu = udp_burst(tier, r)
+    fails += bu["failures"]
+    keys += bu["keys"]
     return {"evaluations": len(keys), "failures": fails, "broken": [], "samples": [], "keys": keys}
 
 
@@ -269,7 +293,7 @@ def classify(suite, desc):
     if suite == "udp-sender-isolation":
         # the asyncio datagram handler and the Twisted UDP protocol keep ONE framer buffer for all senders; a truncated
         # datagram stays buffered and swallows the head of the next sender's datagram
-        if sc["fe"] in ("aio_udp", "tw_udp") and sc["cut"] >= 1:
+        if sc["fe"] in ("aio_udp", "tw_udp") and sc.get("cut", 0) >= 1:
             return "F-C09-asyncio-udp-shared-buffer"
         return None
     if suite == "serve":
@@ -338,6 +362,12 @@ def replay_case(suite, desc):
         ok, rec = e2e_one(sc)
         print(json.dumps(L.observation(rec))[:1500])
         return not ok
+    if suite == "udp-sender-isolation" and sc.get("burst"):
+        a = L.adu("socket", sc["tid_a"], 1, bytes([3]) + struct.pack(">HH", 1, 1))
+        b = L.adu("socket", sc["tid_b"], 1, bytes([3]) + struct.pack(">HH", 5, 2))
+        rec = L.run("aio_udp", "socket", {"single": True, "bcast": False, "ignore": False}, [(0, "ok")], [(a, 1, "burst"), (b, 2)])
+        got = sorted((dest, [x[0] for x in (L.split_adus("socket", data) or [])]) for data, dest in rec.raw)
+        return got != [(1, [sc["tid_a"]]), (2, [sc["tid_b"]])]
     if suite == "udp-sender-isolation":
         ok, rec = udp_isolation_one(sc["fe"], sc["cut"], sc["tid_a"], sc["tid_b"])
         print(json.dumps(L.observation(rec))[:1500])
